@@ -74,6 +74,7 @@ func buildEvidence(prop, tier string, seed int, pc propConfig, outs []entryOut, 
 			"solver_s": round1(r.SolverTime.Seconds()), "wall_s": round1(r.Wall.Seconds()), "max_threads": r.MaxThreads, "sched_points": r.SchedPoints,
 			"bounds": o.cfg.Raw, "unwind": o.cfg.Unwind, "preempt": o.cfg.Preempt, "timers": o.cfg.Timers, "reached": reached,
 			"inconclusive": r.Inconclusive, "exhausted_within_bounds": r.Complete, "violations": len(r.Violations),
+			"sample_paths_rerun_natively_and_agreeing": r.Conformed,
 		})
 	}
 	var fl []string
